@@ -19,6 +19,15 @@ theorem unlock_ack_waiting (db : DB) (c : Cmd) (h : Rec) (hl : db.leader = true)
   simp only [hl, Bool.not_true, Bool.false_eq_true, if_false, this, hf, hp, if_true]
   rfl
 
+/-- the unlock-first path (no hold under the command's LockId, flag 0x01): `currentLock` is tested the same way -/
+theorem unlock_first_ack_waiting (db : DB) (c : Cmd) (h : Rec) (hl : db.leader = true) (hk : (db.getKey c.key).locked > 0)
+    (hf : findHolder db c.key c.lockId = none) (hu : has c.flag UF_FIRST = true) (hh : (db.holders c.key).head? = some h) (hp : h.pending = true) :
+    opUnlock db c = (db.bumpErr, [mkReply c R_ACK_WAITING (db.getKey c.key).locked (db.getR h.hid).depth (db.curData c.key)]) := by
+  unfold opUnlock classifyUnlock
+  have : ((db.getKey c.key).locked == 0) = false := by simp; omega
+  simp only [hl, Bool.not_true, Bool.false_eq_true, if_false, this, hf, hu, hh, hp, if_true]
+  rfl
+
 /-- the one thing `bumpErr` changes is the UnlockErrorCount statistic -/
 theorem bumpErr_same (db : DB) : db.bumpErr.keys = db.keys ∧ db.bumpErr.recs = db.recs ∧ db.bumpErr.tab = db.tab ∧ db.bumpErr.journal = db.journal := ⟨rfl, rfl, rfl, rfl⟩
 
